@@ -252,7 +252,7 @@ def run_misc():
 
 def replay(case, key):
     out = _res()
-    for f in (run_errors, run_recovery, run_misc, run_actions):
+    for f in (run_errors, run_recovery, run_misc, run_actions, run_layout, run_dyn_disambiguation, run_items):
         r = f()
         out["violations"].extend(r["violations"])
     return out
@@ -311,4 +311,162 @@ def run_actions():
                      "actions.collect_right_first_sep"]
     out["rule"] = ("companions of contracts/actions.py: the real collecting actions on accumulated lists of length 0..3 "
                    "x new element in {'x', 0, None}: result contents, arguments unchanged, result not aliased")
+    return out
+
+
+def run_layout():
+    """companion of contracts/layout.py: the real Parser._skipws on stub parsers (ws in {None, '', ' ', ' \\t'} or a
+    stub LAYOUT sub-parser that stops at every possible position) x every text over {a, blank, tab} up to length 4
+    x every head position"""
+    from parglare.parser import Parser
+    out = _res()
+
+    class LP:
+        def __init__(self, stop):
+            self.stop = stop
+
+        def parse(self, input_str, position):
+            return None, self.stop(position, len(input_str))
+    for L in range(0, 5):
+        for t in itertools.product("a \t", repeat=L):
+            text = "".join(t)
+            for pos in range(0, L + 2):
+                configs = [("ws=" + repr(ws), NS(layout_parser=None, ws=ws, debug=False)) for ws in (None, "", " ", " \t")]
+                configs += [(f"LAYOUT parser stops at +{d}", NS(layout_parser=LP(lambda p, n, d=d: min(p + d, max(n, p))),
+                                                                ws=" ", debug=False)) for d in (0, 1, 2)]
+                for cname, stub in configs:
+                    out["evaluations"] += 1
+                    head = NS(position=pos, layout_content_ahead="junk")
+                    key = {"config": cname, "input": text, "position": pos}
+                    try:
+                        Parser._skipws(stub, head, text)
+                    except Exception as e:  # noqa
+                        _viol(out, "Parser._skipws", key, f"raised {type(e).__name__}: {str(e)[:80]}")
+                        continue
+                    new = head.position
+                    ok = pos <= new and head.layout_content_ahead == text[pos:new]
+                    if stub.layout_parser is None:
+                        ws = stub.ws or ""
+                        if ws:
+                            out["nontrivial"] += 1
+                            ok = ok and all(c in ws for c in text[pos:new]) and (new >= len(text) or text[new] not in ws)
+                        else:
+                            ok = ok and new == pos
+                    else:
+                        ok = ok and new == stub.layout_parser.stop(pos, len(text))
+                    if not ok:
+                        _viol(out, "Parser._skipws", key, {"new_position": new, "layout_content_ahead": head.layout_content_ahead})
+    out["covers"] = ["Parser._skipws"]
+    out["rule"] = ("companion of contracts/layout.py: real Parser._skipws, ws in {None,'',' ',' \\t'} or a stub LAYOUT "
+                   "sub-parser, every text over {a, blank, tab} up to length 4 x every head position 0..len+1")
+    return out
+
+
+def run_dyn_disambiguation():
+    """companion of the _dynamic_disambiguation contract: the real function on every list of up to 3 distinct
+    actions from {SHIFT, REDUCE (rhs of length 0 and 2)} x {marked, unmarked} + ACCEPT, with a filter whose verdict
+    is fixed per action: result == the actions that are unmarked or accepted, in order; the filter is consulted
+    exactly for the marked ones, reductions with their production and the sub-results from the stack"""
+    from parglare.parser import ACCEPT, REDUCE, SHIFT, Parser
+    out = _res()
+
+    class Stub:
+        _call_dynamic_filter = Parser._call_dynamic_filter
+        debug = False
+
+    def mk(kind, marked, rlen=0):
+        if kind is SHIFT:
+            return NS(action=SHIFT, state=NS(symbol=NS(name="t", dynamic=marked), state_id=2), prod=None)
+        if kind is REDUCE:
+            return NS(action=REDUCE, state=None, prod=NS(dynamic=marked, rhs=["x"] * rlen, prod_id=3))
+        return NS(action=ACCEPT, state=None, prod=None)
+    protos = [(SHIFT, False, 0), (SHIFT, True, 0), (REDUCE, False, 2), (REDUCE, True, 2), (REDUCE, True, 0), (ACCEPT, False, 0)]
+    stack = [NS(results="r0"), NS(results="r1"), NS(results="r2")]
+    for n in range(0, 4):
+        for combo in itertools.product(range(len(protos)), repeat=n):
+            marked_idx = [i for i, c in enumerate(combo) if protos[c][1]]
+            for verdicts in itertools.product((False, True), repeat=len(marked_idx)):
+                acts = [mk(*protos[c]) for c in combo]
+                verdict = {id(acts[i]): v for i, v in zip(marked_idx, verdicts)}
+                calls = []
+
+                def filt(context, from_state, to_state, action, production, subresults):
+                    a = next(x for x in acts if (x.state is to_state if action is SHIFT else x.prod is production))
+                    calls.append((a, action, production, subresults))
+                    return verdict[id(a)]
+                stub = Stub()
+                stub.dynamic_filter = filt
+                stub.parse_stack = stack
+                ctx = NS(token=None, token_ahead=NS(symbol=NS(name="la", dynamic=False)), production=None,
+                         state=NS(state_id=1, dynamic=set(), actions={}))
+                out["evaluations"] += 1
+                out["nontrivial"] += 1 if marked_idx else 0
+                key = {"actions": [("SHIFT" if protos[c][0] is SHIFT else "REDUCE" if protos[c][0] is REDUCE else "ACCEPT",
+                                    "marked" if protos[c][1] else "unmarked", protos[c][2]) for c in combo],
+                       "verdicts_for_marked": list(verdicts)}
+                try:
+                    r = Parser._dynamic_disambiguation(stub, ctx, list(acts))
+                except Exception as e:  # noqa
+                    _viol(out, "Parser._dynamic_disambiguation", key, f"raised {type(e).__name__}: {str(e)[:80]}")
+                    continue
+                exp = [a for a in acts if id(a) not in verdict or verdict[id(a)]]
+                ok = len(r) == len(exp) and all(x is y for x, y in zip(r, exp))
+                ok = ok and [c[0] for c in calls] == [acts[i] for i in marked_idx]
+                for a, action, production, sub in calls:
+                    if a.action is REDUCE:
+                        rl = len(a.prod.rhs)
+                        ok = ok and production is a.prod and list(sub) == ([x.results for x in stack[-rl:]] if rl else [])
+                    else:
+                        ok = ok and production is None and sub is None
+                if not ok:
+                    _viol(out, "Parser._dynamic_disambiguation", key,
+                          {"kept": [acts.index(x) for x in r], "expected": [acts.index(x) for x in exp], "filter_calls": len(calls)})
+    out["covers"] = ["Parser._dynamic_disambiguation"]
+    out["rule"] = ("companion of the _dynamic_disambiguation contract: every list of up to 3 actions over SHIFT/REDUCE "
+                   "(marked or not, empty and non-empty right-hand side)/ACCEPT x every verdict assignment")
+    return out
+
+
+def run_items():
+    """companion of contracts/tables_items.py: real LRItem on productions with right-hand sides of length 0..3, every
+    position, follow sets of size 0..2 (and None): get_pos_inc copies the follow set (updating the copy leaves the
+    original alone, and vice versa)"""
+    from parglare.tables import LRItem
+    out = _res()
+    syms = ["t1", "t2", "t3"]
+    for n in range(0, 4):
+        prod = NS(rhs=syms[:n], symbol="A", prod_id=1)
+        for pos in range(0, n + 1):
+            for fol in (None, set(), {"x"}, {"x", "y"}):
+                out["evaluations"] += 1
+                key = {"rhs_len": n, "position": pos, "follow": sorted(fol) if fol is not None else None}
+                it = LRItem(prod, pos, fol)
+                if it.production is not prod or it.position != pos or it.follow != (fol or set()) or \
+                        (fol and it.follow is not fol):
+                    _viol(out, "LRItem.__init__", key, {"follow": sorted(it.follow)})
+                if (fol is None or not fol) and LRItem(prod, pos, fol).follow is it.follow:
+                    _viol(out, "LRItem.__init__", key, "two items share one default follow set")
+                if it.is_at_end != (pos == n):
+                    _viol(out, "LRItem.is_at_end", key, {"observed": it.is_at_end})
+                if pos < n and it.symbol_at_position != syms[pos]:
+                    _viol(out, "LRItem.symbol_at_position", key, {"observed": it.symbol_at_position})
+                nxt = it.get_pos_inc()
+                if (nxt is None) != (pos >= n):
+                    _viol(out, "LRItem.get_pos_inc", key, {"result_is_None": nxt is None})
+                    continue
+                if nxt is None:
+                    continue
+                out["nontrivial"] += 1
+                before = set(it.follow)
+                ok = nxt.production is prod and nxt.position == pos + 1 and nxt.follow == before and nxt is not it
+                nxt.follow.add("late")          # look-ahead merged into the successor later on
+                ok = ok and it.follow == before
+                it.follow.add("mine")
+                ok = ok and "mine" not in nxt.follow
+                if not ok:
+                    _viol(out, "LRItem.get_pos_inc", key, {"original_follow_after_update_of_copy": sorted(it.follow),
+                                                          "copy": sorted(nxt.follow)})
+    out["covers"] = ["LRItem.__init__", "LRItem.get_pos_inc", "LRItem.is_at_end", "LRItem.symbol_at_position"]
+    out["rule"] = ("companion of contracts/tables_items.py: real LRItem, right-hand sides of length 0..3 x every position x "
+                   "follow in {None, {}, {x}, {x,y}}; the follow set of the advanced item is an independent copy")
     return out
